@@ -101,11 +101,18 @@ def _report(ses, rec, names, proto, fkind, akind, mode, what, public, want='ok')
         sg = m.get('seg')
         if sg is not None and sg == m.get('b64F'): ops.append({'footer_seg_b64_of': _txt(m.get('footer'))})
         else: ops.append({'footer_seg': sg if isinstance(sg, str) else ''})
+    _pf = None if fkind == 'none' else _txt(m.get('footer')); _pa = None if akind == 'none' else _txt(m.get('assertion'))
+    # the authentic token is parsed first (anything the verifier remembers between calls is then warm), then the solver's altered token
     steps = key_steps(proto, m) + [build_step(proto, m, fkind, akind), {'op': 'mutate', 'in': '$T', 'out': 'T2', 'ops': ops},
-             {'op': 'parse_core', 'proto': proto, 'token': '$T2', 'key': '$k_pk', 'footer': None if fkind == 'none' else _txt(m.get('footer')),
-              'assertion': None if akind == 'none' else _txt(m.get('assertion')), 'out': 'R'},
-             {'op': 'parse_core', 'proto': proto, 'token': '$T', 'key': '$k_pk', 'footer': None if fkind == 'none' else _txt(m.get('footer')),
-              'assertion': None if akind == 'none' else _txt(m.get('assertion')), 'out': 'R0'}]
+             {'op': 'parse_core', 'proto': proto, 'token': '$T', 'key': '$k_pk', 'footer': _pf, 'assertion': _pa, 'out': 'R0'},
+             {'op': 'parse_core', 'proto': proto, 'token': '$T2', 'key': '$k_pk', 'footer': _pf, 'assertion': _pa, 'out': 'R'}]
+    extra_alts = []
+    if want != 'utf8' and mode != 'S3':
+        # single-byte edits of the real payload that keep everything else (for public tokens the signature stays, the message changes)
+        for xi, (idx, mask) in enumerate(((0, 1), (0, 0x20), (1, 1), (33, 1), (40, 0x80))):
+            steps += [{'op': 'mutate', 'in': '$T', 'out': 'TX%d' % xi, 'ops': [{'payload_xor': [idx, mask]}]},
+                      {'op': 'parse_core', 'proto': proto, 'token': '$TX%d' % xi, 'key': '$k_pk', 'footer': _pf, 'assertion': _pa, 'out': 'RX%d' % xi}]
+            extra_alts.append([{'var': 'RX%d' % xi, 'is': 'ok'}, {'var': 'T', 'is': 'ok'}])
     msg = _txt(m.get('message'))
     if mode == 'S4' and want == 'ok' and m.get('seg') != m.get('b64F') and (m.get('P') == m.get('Pa')):
         # the payload is untouched and only the footer segment text differs from b64url(F): the model cannot name a concrete non-canonical
@@ -135,7 +142,7 @@ def _report(ses, rec, names, proto, fkind, akind, mode, what, public, want='ok')
     if want == 'utf8': vi = [[{'var': 'R', 'is': 'err_contains', 'value': 'Utf8'}, D_]]
     elif public: vi = [[{'var': 'R', 'is': 'ok_ne', 'value': msg}], [{'var': 'R', 'is': 'ok'}, D_]]
     else: vi = [[{'var': 'R', 'is': 'ok'}, D_]]
-    script = {'steps': steps + [{'op': 'differs', 'a': '$T', 'b': '$T2', 'sig_len': SIGLEN.get(proto, 0) if public else 0, 'out': 'DIFF'}], 'violated_if': vi}
+    script = {'steps': steps + [{'op': 'differs', 'a': '$T', 'b': '$T2', 'sig_len': SIGLEN.get(proto, 0) if public else 0, 'out': 'DIFF'}], 'violated_if': vi + extra_alts}
     ses.violation('%s %s footer=%s assertion=%s: %s' % (proto, mode, fkind, akind, what), m, script)
 
 
@@ -182,10 +189,14 @@ def run(ses):
         for f, ak in vs:
             jobs += [(job_tamper, (p, f, ak, 'S3')), (job_tamper, (p, f, ak, 'S4'))]
         jobs.append((job_shape, (p,)))
+        from . import c04 as _c04
+        jobs.append((_c04.job_footer_swap, (p,)))          # the footer segment rewritten AND the verifier expecting the rewritten footer
         if ses.tier == 'thorough': jobs += [(job_splice, (p, 'S3')), (job_splice, (p, 'S4'))]
     jobs += upper.tamper_jobs(ses.tier)
     from .. import kani
     jobs.append((kani.job_footer_compare, ()))        # the expected-footer comparison on the compiled code: an edited footer segment is never taken for the right one
+    from .. import kani as _kani
+    jobs.append((_kani.job_le64, ()))        # the PAE length prefix is a summary in the SMT runs: Kani checks le64 itself on the compiled code (all 2^64 inputs)
     run_jobs(ses, jobs)
     ses.trusted_base = TRUSTED
     ses.assumptions = ['the attacker knows the authentic token and may present ANY byte string as decoded payload and any dot-free text as footer segment; expected footer/assertion/key are those of the authentic token',
